@@ -7,6 +7,8 @@
   environment model (see the model file): labelled partial for that reason.
 -/
 import JRV.Model.ServerLife
+import JRV.Lemmas.PoolCompose
+import JRV.Properties.C09
 import JRV.Generated
 
 set_option linter.unusedSimpArgs false
@@ -261,10 +263,162 @@ theorem C12_close_without_serving (f : Nat → Nat) :
       = some (.returned, false, true) := by
   simp [run, step?, init]
 
+
+/- ---------- the request pool of `JRV.Model.ServerLife` instantiated by `JRV.Model.Pool` ---------- -/
+
+/-- The image, in the life-cycle model's connection table, of the pool task that carries the handler of a connection
+    with request body `body`: the handler has started iff the task body has been entered (`execCount = 1`), the reply is
+    written iff the task is finished. -/
+def connOfTask (f : Nat → Nat) (body : Nat) (tk : JRV.Pool.Task) : Conn :=
+  { body := body, started := tk.execCount == 1, reply := if tk.phase = .finished then some (f body) else none }
+
+private theorem pool_begin_is_handlerStart (f : Nat → Nat) (body : Nat → Nat)
+    (cfg : JRV.Pool.Config) (n : Nat) (ps ps' : JRV.Pool.State) (hr : JRV.Pool.Reach (JRV.Pool.init cfg n) ps)
+    (j : Nat) (w : JRV.Pool.Worker) (hw : ps.workers[j]? = some w) (hpc : w.pc = .begin)
+    (h : JRV.Pool.step? ps ⟨.worker j, .taskBegin, false⟩ = some ps') :
+    ∃ t tk tk', w.held = some t ∧ ps.tasks[t]? = some tk ∧ ps'.tasks[t]? = some tk' ∧
+      (connOfTask f (body t) tk).started = false ∧ (connOfTask f (body t) tk).reply = none ∧
+      connOfTask f (body t) tk' = { connOfTask f (body t) tk with started := true } := by
+  obtain ⟨t, tk, hheld, htk, _, hph⟩ := (JRV.Pool.TaskInv_reach hr).wheld j w hw .held (by simp [JRV.Pool.phaseOfPc, hpc])
+  have hex := (JRV.Pool.TaskInv_reach hr).exec t tk htk
+  have hlt : t < ps.tasks.length := (List.getElem?_eq_some_iff.mp htk).1
+  simp only [JRV.Pool.step?, hw, JRV.Pool.workerStep, hpc, hheld, hlt, if_true] at h
+  injection h with h; subst h
+  refine ⟨t, tk, { tk with phase := .running, execCount := tk.execCount + 1 }, hheld, htk, ?_, ?_, ?_, ?_⟩
+  · simp only [JRV.Pool.setWorker, JRV.Pool.updTask]
+    exact JRV.Pool.getElem?_modify_eq htk
+  · simp [connOfTask, hex, hph, JRV.Pool.execOf]
+  · simp [connOfTask, hph]
+  · simp [connOfTask, hex, hph, JRV.Pool.execOf]
+
+private theorem pool_end_is_handlerFinish (f : Nat → Nat) (body : Nat → Nat)
+    (cfg : JRV.Pool.Config) (n : Nat) (ps ps' : JRV.Pool.State) (hr : JRV.Pool.Reach (JRV.Pool.init cfg n) ps)
+    (j : Nat) (w : JRV.Pool.Worker) (hw : ps.workers[j]? = some w) (hpc : w.pc = .body) (o : JRV.Pool.Outcome)
+    (h : JRV.Pool.step? ps ⟨.worker j, .taskEnd o, false⟩ = some ps') :
+    ∃ t tk tk', w.held = some t ∧ ps.tasks[t]? = some tk ∧ ps'.tasks[t]? = some tk' ∧
+      (connOfTask f (body t) tk).started = true ∧ (connOfTask f (body t) tk).reply = none ∧
+      connOfTask f (body t) tk' = { connOfTask f (body t) tk with reply := some (f (body t)) } := by
+  obtain ⟨t, tk, hheld, htk, _, hph⟩ := (JRV.Pool.TaskInv_reach hr).wheld j w hw .running (by simp [JRV.Pool.phaseOfPc, hpc])
+  have hex := (JRV.Pool.TaskInv_reach hr).exec t tk htk
+  have hlt : t < ps.tasks.length := (List.getElem?_eq_some_iff.mp htk).1
+  simp only [JRV.Pool.step?, hw, JRV.Pool.workerStep, hpc, hheld, hlt, if_true] at h
+  injection h with h; subst h
+  refine ⟨t, tk, { tk with phase := .finished, outcome := some o }, hheld, htk, ?_, ?_, ?_, ?_⟩
+  · simp only [JRV.Pool.setWorker, JRV.Pool.updTask]
+    exact JRV.Pool.getElem?_modify_eq htk
+  · simp [connOfTask, hex, hph, JRV.Pool.execOf]
+  · simp [connOfTask, hph]
+  · simp [connOfTask, hex, hph, JRV.Pool.execOf]
+
+/-- **What `JRV.Model.ServerLife` assumes of its request pool is what the pool model provides** (safety half).
+    The life-cycle model abstracts the request pool to three things; each is matched, in every reachable state of
+    `JRV.Model.Pool` (any pool size, any interleaving), through the map `connOfTask`:
+    1. `handlerStart i` needs `¬ started` and sets it: a `task.begin` step of a worker finds the image of its task not
+       started (the task is in phase `held`, never run: `C09_single_holder`, `C09_exec_count_phase`) and leaves it started,
+       without reply; and a task is never begun twice — `execCount ≤ 1` in every reachable state (`C09_at_most_once`);
+    2. `handlerFinish i` needs `started ∧ reply = none` and writes the reply: so does the `task.end` step;
+    3. the `stopPool` step of `server_close()` (the return of `ThreadPool.stop()`) needs every started handler to have replied,
+       sets `poolStopped`, which disables `handlerStart`, and the property wants "every worker of the request pool it stops
+       terminates": once `stop()` is past its loop joining the worker threads — in particular after it has returned — every
+       worker thread is dead and no worker action, `task.begin` included, is enabled (`C09_none_after_stop`; single
+       controlling thread, which is how a server uses its pool: only `server_close()` stops it); hence no task is held or
+       running there, i.e. the image of every task satisfies `!started || reply.isSome`.  (What makes `stop()` wait for the
+       handlers in flight is this join of the worker threads, not the `join()` it calls afterwards through `clear()`: the
+       theorem does not depend on the shape of `join()`, `C11_join_true`.)
+    Not instantiated here (liveness of `stop()`): that `stop()` does get past its join loop once the running handlers finish
+    is `C11_stop_no_stuck` + `C11_stop_measure` (and `C11_workers_exit` restates clause 3 with the fresh-pool accounting); they
+    are theorems about the same pool model, not imported into this file because C11.lean also carries the companion theorem
+    of the `join()` shape, on which `server_close()` does not depend.  Stage 2 of harness/props/c12.py monitors the return of
+    `server_close()` and the termination of the workers on the real code under the deterministic scheduler (`close-hang`,
+    `workers-alive`).  That an accepted handler task is eventually begun while the pool runs is `C09_eventually_once` /
+    `C09_eventually_begins` (with `C10_no_starvation`, `C10_progress_no_stuck`). -/
+theorem C12_pool_instantiation (f : Nat → Nat) (body : Nat → Nat)
+    (cfg : JRV.Pool.Config) (n : Nat) (ps : JRV.Pool.State) (hr : JRV.Pool.Reach (JRV.Pool.init cfg n) ps) :
+    (∀ (t : Nat) (tk : JRV.Pool.Task), ps.tasks[t]? = some tk → tk.execCount ≤ 1) ∧
+    (∀ j w ps', ps.workers[j]? = some w → w.pc = .begin → JRV.Pool.step? ps ⟨.worker j, .taskBegin, false⟩ = some ps' →
+      ∃ t tk tk', w.held = some t ∧ ps.tasks[t]? = some tk ∧ ps'.tasks[t]? = some tk' ∧
+        (connOfTask f (body t) tk).started = false ∧ (connOfTask f (body t) tk).reply = none ∧
+        connOfTask f (body t) tk' = { connOfTask f (body t) tk with started := true }) ∧
+    (∀ j w o ps', ps.workers[j]? = some w → w.pc = .body → JRV.Pool.step? ps ⟨.worker j, .taskEnd o, false⟩ = some ps' →
+      ∃ t tk tk', w.held = some t ∧ ps.tasks[t]? = some tk ∧ ps'.tasks[t]? = some tk' ∧
+        (connOfTask f (body t) tk).started = true ∧ (connOfTask f (body t) tk).reply = none ∧
+        connOfTask f (body t) tk' = { connOfTask f (body t) tk with reply := some (f (body t)) }) ∧
+    (cfg.singleCtl = true → ps.stop = true →
+      (∀ c, ps.clients[0]? = some c → (match c.pc with
+          | .stopAcq | .stopPut _ | .stopRel _ | .stopAlive _ | .stopJoin _ | .stopAlive2 _ => False | _ => True)) →
+      (∀ (j : Nat) (w : JRV.Pool.Worker), ps.workers[j]? = some w → w.pc = .dead) ∧
+      (∀ (j : Nat) (op : JRV.Pool.Op) (tmo : Bool), JRV.Pool.step? ps ⟨.worker j, op, tmo⟩ = none) ∧
+      (∀ (t : Nat) (tk : JRV.Pool.Task), ps.tasks[t]? = some tk →
+        (!(connOfTask f (body t) tk).started || (connOfTask f (body t) tk).reply.isSome) = true)) := by
+  refine ⟨fun t tk ht => C09_at_most_once cfg n ps hr t tk ht, ?_, ?_, ?_⟩
+  · intro j w ps' hw hpc h
+    exact pool_begin_is_handlerStart f body cfg n ps ps' hr j w hw hpc h
+  · intro j w o ps' hw hpc h
+    exact pool_end_is_handlerFinish f body cfg n ps ps' hr j w hw hpc o h
+  · intro hctl hstop hpc
+    obtain ⟨hdead, hnone⟩ := C09_none_after_stop cfg n ps hctl hr hstop hpc
+    refine ⟨hdead, hnone, fun t tk ht => ?_⟩
+    have hex := (JRV.Pool.TaskInv_reach hr).exec t tk ht
+    have hown := (JRV.Pool.TaskInv2_reach hr).own t tk ht
+    cases hph : tk.phase with
+    | held =>
+      obtain ⟨j, w, hw, _, hp⟩ := hown (Or.inl hph)
+      rw [hdead j w hw] at hp; simp [JRV.Pool.phaseOfPc] at hp
+    | running =>
+      obtain ⟨j, w, hw, _, hp⟩ := hown (Or.inr hph)
+      rw [hdead j w hw] at hp; simp [JRV.Pool.phaseOfPc] at hp
+    | created => simp [connOfTask, hex, hph, JRV.Pool.execOf]
+    | queued => simp [connOfTask, hex, hph, JRV.Pool.execOf]
+    | finished => simp [connOfTask, hex, hph, JRV.Pool.execOf]
+    | dropped => simp [connOfTask, hex, hph, JRV.Pool.execOf]
+
+/- Non-vacuity: a started pool, one handler task enqueued (the accept loop is client 0), taken by worker 0 which stands at
+   `task.begin` (hypotheses of clause 1); after `task.begin` and `task.end` the image is a connection that has replied. -/
+example :
+    (do let ps ← JRV.Pool.run (JRV.Pool.init { max := 1, min := 0, qbound := 0 } 1)
+          [⟨.client 0, .callStart, false⟩, ⟨.client 0, .eventIsSet, false⟩, ⟨.client 0, .eventClear, false⟩,
+           ⟨.client 0, .queueQsize, false⟩, ⟨.client 0, .callEnqueue, false⟩, ⟨.client 0, .lockAcquire, false⟩,
+           ⟨.client 0, .queuePut, false⟩, ⟨.client 0, .lockAcquire, false⟩, ⟨.client 0, .eventIsSet, false⟩,
+           ⟨.client 0, .lockRelease, false⟩, ⟨.client 0, .lockRelease, false⟩,
+           ⟨.worker 0, .eventIsSet, false⟩, ⟨.worker 0, .queueGet, false⟩, ⟨.worker 0, .lockAcquire, false⟩,
+           ⟨.worker 0, .lockRelease, false⟩]
+        let ps1 ← JRV.Pool.step? ps ⟨.worker 0, .taskBegin, false⟩
+        let ps2 ← JRV.Pool.step? ps1 ⟨.worker 0, .taskEnd .ok, false⟩
+        pure (ps.workers.map (·.pc), ps.tasks.map (connOfTask (· + 100) 7), ps1.tasks.map (connOfTask (· + 100) 7),
+              ps2.tasks.map (connOfTask (· + 100) 7)))
+      = some ([.begin], [{ body := 7 }], [{ body := 7, started := true }], [{ body := 7, started := true, reply := some 107 }]) := by
+  decide +kernel
+
+/- Non-vacuity of clause 3: the handler task runs to its end, its worker retires (min_threads = 0), `stop()` is called and
+   returns: flag set, controlling thread idle, the worker dead, the connection has replied. -/
+example :
+    (JRV.Pool.run (JRV.Pool.init { max := 1, min := 0, qbound := 0 } 1)
+          [⟨.client 0, .callStart, false⟩, ⟨.client 0, .eventIsSet, false⟩, ⟨.client 0, .eventClear, false⟩,
+           ⟨.client 0, .queueQsize, false⟩, ⟨.client 0, .callEnqueue, false⟩, ⟨.client 0, .lockAcquire, false⟩,
+           ⟨.client 0, .queuePut, false⟩, ⟨.client 0, .lockAcquire, false⟩, ⟨.client 0, .eventIsSet, false⟩,
+           ⟨.client 0, .lockRelease, false⟩, ⟨.client 0, .lockRelease, false⟩,
+           ⟨.worker 0, .eventIsSet, false⟩, ⟨.worker 0, .queueGet, false⟩, ⟨.worker 0, .lockAcquire, false⟩,
+           ⟨.worker 0, .lockRelease, false⟩, ⟨.worker 0, .taskBegin, false⟩, ⟨.worker 0, .taskEnd .ok, false⟩,
+           ⟨.worker 0, .futSet, false⟩, ⟨.worker 0, .queueTaskDone, false⟩, ⟨.worker 0, .lockAcquire, false⟩,
+           ⟨.worker 0, .lockRelease, false⟩, ⟨.worker 0, .lockAcquire, false⟩, ⟨.worker 0, .lockRelease, false⟩,
+           ⟨.worker 0, .lockAcquire, false⟩, ⟨.worker 0, .lockRelease, false⟩,
+           ⟨.client 0, .callStop, false⟩, ⟨.client 0, .eventIsSet, false⟩, ⟨.client 0, .eventSet, false⟩,
+           ⟨.client 0, .lockAcquire, false⟩, ⟨.client 0, .lockRelease, false⟩, ⟨.client 0, .lockAcquire, false⟩,
+           ⟨.client 0, .queueGetNowait, false⟩, ⟨.client 0, .queueJoin, false⟩, ⟨.client 0, .lockRelease, false⟩]).map
+        (fun s => (s.cfg.singleCtl, s.stop, s.clients.map (·.pc), s.workers.map (·.pc), s.tasks.map (connOfTask (· + 100) 7)))
+      = some (true, true, [.idle], [.dead], [{ body := 7, started := true, reply := some 107 }]) := by
+  rfl
+
 /-- Tie to the source: the body of PooledJSONRPCServer.server_close / serve_forever / process_request. -/
 theorem C12_gen_serverClose : Generated.pooledServerClose = some ["if-serving:shutdown", "server_close", "pool.stop"] := by decide
 theorem C12_gen_serveFlag : Generated.pooledServeForeverSetsFlag = some (true, true) := by decide
 theorem C12_gen_processRequest : Generated.pooledProcessRequestEnqueues = some true := by decide
+/-- Tie of `C12_pool_instantiation` to the source of the request pool: the facts of `ThreadPool` that the pool model's
+    hand-off of tasks (growth, retirement, accounting, lock discipline) encodes — the same facts C09 is tied by. -/
+theorem C12_gen_poolRetireRule : Generated.poolRetireRule = some JRV.Pool.retireRuleSpec := by decide
+theorem C12_gen_poolGrowthRule : Generated.poolGrowthRule = some JRV.Pool.growthRuleSpec := by decide
+theorem C12_gen_poolPendingStores : Generated.poolPendingStores = some JRV.Pool.pendingStoresSpec := by decide
+theorem C12_gen_poolUnlockedAccesses : Generated.poolUnlockedAccesses = some JRV.Pool.unlockedAccessesSpec := by decide
 
 /- Non-vacuity: serve, accept two connections, close while one request is in flight. -/
 example : ((run (fun b => b + 100) init
